@@ -95,7 +95,7 @@ def nofun2par_ranges(ctx, cuqi, lines, pending, verdicts, oracle_jobs, nconf):
         foreign = G.Continuous1D(np.arange(D.par_dim) + 0.5)
         canon = b.Canon(cuqi, [(Dg, gD), (Rg, gR), (foreign, 2)])
         exact = D.exact and R.exact and M.exact
-        tol = 1e-12 if exact else b.TOL
+        tol = b.EXACT_TOL if exact else b.TOL
         conf = {"nofun2par_range": True, "model": mk, "domain": D.label, "domain_gradient": None, "range": R.label, "n": D.par_dim,
                 "seed_index": 600000 + ci, "geometry_eq_raises": False, "loose_geometry_eq": False}
         cov[f"{mk.split('-')[0]}|{D.label}|{R.label}"] = cov.get(f"{mk.split('-')[0]}|{D.label}|{R.label}", 0) + 1
@@ -210,7 +210,7 @@ def linear_objects(ctx, cuqi, lines, pending, verdicts, nconf):
         Dtok, Rtok = D.token(0), R.token(1)
         canon = b.Canon(cuqi, [(Dg, 0), (Rg, 1)])
         exact = D.exact and R.exact
-        tol = 1e-12 if exact else b.TOL
+        tol = b.EXACT_TOL if exact else b.TOL
         head = f"lin {mtok} {Dtok} {Rtok} {eqr} {D.par_dim} {R.par_dim} {path}"
 
         def walk(model, path, with_g=True):
@@ -829,7 +829,7 @@ def geometry_reassignment(ctx, cuqi, lines, pending, verdicts, oracle_jobs, ncon
         Dtok, Rtok = D.token(gD), R.token(gR)
         canon = b.Canon(cuqi, [(Dg, gD), (Rg, gR)])
         exact = D.exact and R.exact and M.exact
-        tol = 1e-12 if exact else b.TOL
+        tol = b.EXACT_TOL if exact else b.TOL
         conf = {"geometry_reassigned": which, "model": mk, "domain": D.label, "domain_gradient": D.gradstyle, "range": R.label, "initial_domain": D0.label,
                 "initial_range": R0.label, "n": D.par_dim, "seed_index": 980000 + ci, "geometry_eq_raises": False, "loose_geometry_eq": loose}
         cov[f"{which}|{D0.label}->{D.label}{'+grad' if D.gradstyle else ''}|{R0.label}->{R.label}"] = cov.get(f"{which}|{D0.label}->{D.label}{'+grad' if D.gradstyle else ''}|{R0.label}->{R.label}", 0) + 1
